@@ -1278,7 +1278,8 @@ func (gc GoCode) Write(w io.Writer, indent int) error {
 	if err != nil {
 		source = []byte(gc.Expression.Value)
 	}
-	if !gc.Multiline {
+	// gofmt may split the code into several lines (e.g. `a := 1; b := 2`), it is multiline code from then on.
+	if !gc.Multiline && !bytes.Contains(source, []byte("\n")) {
 		return writeIndent(w, indent, `{{ `, string(source), ` }}`)
 	}
 	if err := writeIndent(w, indent, "{{"+string(source)+"\n"); err != nil {
